@@ -154,3 +154,36 @@ def r6_params(res, facts):
     else:
         r.ok('StackEntry::activate has no caller', 'positive control: %d caller(s) of deactivate seen' % len(callers_d))
     return r
+
+
+def r14_attribute_needs_element(res, facts):
+    """xsl:attribute (XSLT 1.0 7.1.3) may add to the element being built only while that element is still open for attributes.  Whatever ElemAttribute::startElement puts into the
+    pending attribute list when no element is pending - the attribute or the namespace declaration it generates for it - stays there and comes out on the NEXT element."""
+    from ..mast import CFG, calls, callee
+    r = res.rule('C01-R14', 'xsl:attribute adds nothing unless an element is pending: in ElemAttribute::startElement every addResultAttribute (generated namespace declarations) and every '
+                 'pushProcessCurrentAttribute(true) is dominated by isElementPending() == true', floor=3)
+    cands = [a for a in facts.asts('ElemAttribute::startElement', must=False) if a.get('body') is not None]
+    if len(cands) != 1:
+        raise AnalysisBroken('ElemAttribute::startElement: %d bodies' % len(cands))
+    a = cands[0]
+    cfg = CFG(a)
+    must = common.must_conds(cfg)
+    n = 0
+    for nd in cfg.nodes:
+        if nd.ast is None or nd.kind not in ('stmt', 'cond'):
+            continue
+        for c in calls(nd.ast):
+            nm = c.get('n') or callee(c).split('::')[-1]
+            adds = nm == 'addResultAttribute' or (nm == 'pushProcessCurrentAttribute' and c.get('args') and (strip_casts(c['args'][0]) or {}).get('cv') == 1)
+            if not adds:
+                continue
+            n += 1
+            site = 'ElemAttribute::startElement: %s' % (nm if nm == 'addResultAttribute' else 'the attribute is to be processed')
+            if any(common.cond_is_call(at, 'isElementPending', br, True) for at, br in must.get(nd.id, [])):
+                r.ok(site, 'only while an element is pending')
+            else:
+                r.violation(site, 'reached on a path that has not established isElementPending() == true: what is added then stays in the pending attribute list and comes out on the next '
+                            'element started', common.file_line(a, c))
+    if n == 0:
+        raise AnalysisBroken('ElemAttribute::startElement adds nothing (addResultAttribute / pushProcessCurrentAttribute(true) expected)')
+    return r
